@@ -6,6 +6,7 @@ import Driver.Handlers
 import Driver.Version
 import Driver.Validate
 import Driver.KeyedLock
+import Driver.HandlerStatus
 
 def main (args : List String) : IO UInt32 := do
   let stdin ← IO.getStdin
@@ -17,4 +18,5 @@ def main (args : List String) : IO UInt32 := do
   | ["version"] => Drv.loop stdin Drv.Version.step (); return 0
   | ["validate"] => Drv.loop stdin Drv.Validate.step (); return 0
   | ["keyedlock"] => Drv.loop stdin Drv.KeyedLock.step {}; return 0
+  | ["handlerstatus"] => Drv.loop stdin Drv.HandlerStatus.step {}; return 0
   | _ => IO.eprintln "usage: wfdriver <model>"; return 2
